@@ -299,7 +299,8 @@ Definition step_rt (s : srt) (o : line) : srt * list bytes :=
   else if beqb op (bs "creq") then (s, creq_obs s o)
   else if beqb op (bs "script") then (s, script_obs s o)
   else if beqb op (bs "tracehelper") then
-    (s, writer_obs (run_get [] (trace_script (Some []) (fun _ => repeat 0 (argnat 2 o)))))
+    (* the escaped dump is an input: httputil.DumpRequest and html.EscapeString are outside the model *)
+    (s, writer_obs (run_get [] (trace_script (Some []) (fun _ => arg 8 o))) ++ [bs "body"; arg 8 o])
   else if beqb op (bs "syntax") then (s, res_obs (check_syntax (arg 1 o)))
   else if beqb op (bs "muxurl") then
     let ps := pairs (fst (take_list (skipn 2 a))) in
@@ -754,7 +755,8 @@ Definition tracehelper_clauses (o : line) (r : list bytes) : list bytes :=
   let hs := pairs (skipn 3 r) in
   check (beqb (nth 0 r []) (bs "200")) "C18:trace-helper-status" ++
   check (beqb (opt_default [] (alookup content_type hs)) message_http) "C18:trace-helper-content-type-not-sent" ++
-  check (beqb (nth 1 r []) (arg 2 o)) "C18:trace-helper-body-is-not-the-escaped-dump" ++
+  check (beqb (nth 1 r []) (arg 2 o) && beqb (last r []) (arg 8 o) && beqb (N_to_dec (N.of_nat (length (arg 8 o)))) (arg 2 o))
+        "C18:trace-helper-body-is-not-the-escaped-dump" ++
   check (match alookup content_length hs with Some v => beqb v (nth 1 r []) | None => true end)
         "C18:trace-helper-content-length-disagrees-with-body".
 
